@@ -117,12 +117,32 @@ func (e *Env) NextVer() int {
 	return e.ver
 }
 
+// regs renders region lists. Values that can only come from a garbage state (the state after
+// a known finding, e.g. a header read through a dead mapping) are clamped so that the judge
+// can still build the page sets; such a state deviates from the model anyway.
 func regs(rs []txfile.VerifRegion) [][2]uint64 {
 	out := make([][2]uint64, 0, len(rs))
-	for _, r := range rs {
-		out = append(out, [2]uint64{r.ID, uint64(r.Count)})
+	for i, r := range rs {
+		id, n := r.ID, uint64(r.Count)
+		if id > 1<<24 {
+			id = 1 << 24
+		}
+		if n > 4096 {
+			n = 4096
+		}
+		if i >= 512 {
+			break
+		}
+		out = append(out, [2]uint64{id, n})
 	}
 	return out
+}
+
+func clampU(v uint64) uint64 {
+	if v > 1<<30 {
+		return 1 << 30
+	}
+	return v
 }
 
 // StOf converts a file snapshot into the trace representation.
@@ -132,8 +152,8 @@ func StOf(st txfile.VerifState) map[string]interface{} {
 		wal = [][2]uint64{}
 	}
 	return map[string]interface{}{
-		"slot": st.MetaActive, "txid": st.TxID, "root": st.Root, "hfl": st.HdrFL, "hwal": st.HdrWAL,
-		"maxb": st.MaxSize, "hde": st.HdrDataEnd, "hme": st.HdrMetaEnd, "hmt": st.HdrMetaTot, "hmax": st.HdrMaxSize / uint64(max1(st.PageSize)),
+		"slot": st.MetaActive, "txid": clampU(st.TxID), "root": clampU(st.Root), "hfl": clampU(st.HdrFL), "hwal": clampU(st.HdrWAL),
+		"maxb": st.MaxSize, "hde": clampU(st.HdrDataEnd), "hme": clampU(st.HdrMetaEnd), "hmt": clampU(st.HdrMetaTot), "hmax": clampU(st.HdrMaxSize / uint64(max1(st.PageSize))),
 		"de": st.DataEnd, "me": st.MetaEnd, "mt": st.MetaTotal, "maxp": st.MaxPages,
 		"dfree": regs(st.DataFree), "mfree": regs(st.MetaFree), "flp": regs(st.FreelistPages), "walpg": regs(st.WALPages),
 		"wal": wal, "sh": st.Shared, "pe": st.Pending, "res": st.Reserved,
